@@ -5,6 +5,7 @@ interleaving of them is explored):
   arrive-i   caller i (own task) calls the cached coroutine function with its key
   cancel-i   a canceller task cancels caller i's task
   expire     the virtual clock jumps past every existing entry's expiration
+  tick-i     the virtual clock (also the loop's) advances by 0.6 of the expiration: younger entries stay valid
   inv-k      the k-th invocation of the wrapped coroutine (parked on its gate) is allowed to finish
 Eviction is produced by callers with another key under limit=1.
 
@@ -127,11 +128,20 @@ def run_schedule(cfg: dict[str, Any], chooser: Chooser) -> dict[str, Any]:
             await sched.gate("expire")
             clock.advance(2.0)
 
+        async def ticker(i: int) -> None:
+            # a partial advance (0.6 of the 1.0 expiration): entries younger than 0.4 stay valid, older ones expire; timers the
+            # cache may have armed on the loop clock fire as well
+            await sched.gate(f"tick{i}")
+            clock.advance(0.6)
+            await asyncio.sleep(0)
+
         for i in range(n):
             tasks.append(loop.create_task(caller(i)))
         others = [loop.create_task(canceller(i)) for i in cancels]
-        if expire:
+        if expire and cfg.get("jump", True):
             others.append(loop.create_task(expirer()))
+        for i in range(cfg.get("ticks", 0) if expire else 0):
+            others.append(loop.create_task(ticker(i)))
         await asyncio.gather(*tasks, *others, return_exceptions=True)
         while True:
             pend = [f for f in inv_done if not f.done()]
@@ -179,12 +189,20 @@ def judge(R: Recorder, cfg: dict[str, Any], chooser: Chooser, log: dict[str, Any
     def unfinished(rec: dict[str, Any], at: int) -> bool:
         return rec["end"] is None or rec["end"] >= at  # ended by an action released at/after `at`
 
-    for step, label in enumerate(actions, start=1):
-        if label == "expire":
-            for e in entries.values():
+    now = 0.0
+
+    def refresh_expiry(step: int) -> None:
+        for e in entries.values():
+            if now - e["birth"] > 1.0 and not e["expired"]:
                 e["expired"] = True
                 if unfinished(inv[e["inv"]], step):
                     flags["expiry_in_flight"] = True
+
+    for step, label in enumerate(actions, start=1):
+        if label == "expire" or label.startswith("tick"):
+            now += 2.0 if label == "expire" else 0.6
+            if expire:
+                refresh_expiry(step)
         elif label.startswith("arrive"):
             i = int(label[6:])
             c = callers.get(i)
@@ -202,7 +220,7 @@ def judge(R: Recorder, cfg: dict[str, Any], chooser: Chooser, log: dict[str, Any
                 e["waiters"].append(i)
             elif started:
                 rec = started[-1]
-                entries[k] = {"inv": rec["id"], "expired": False, "evicted": False, "waiters": [i]}
+                entries[k] = {"inv": rec["id"], "expired": False, "evicted": False, "waiters": [i], "birth": now}
                 bound[i] = rec["id"]
             elif e is not None:
                 bound[i] = e["inv"]  # joined a finished / expired / evicted one (finished+live: plain cache hit)
@@ -299,13 +317,22 @@ def configs(tier: str):  # noqa: ANN201
                             continue
                         for outcome in (("value", "raise") if n == 2 else ("mixed",)):
                             yield {"keys": list(keys), "cancels": list(cancels), "expire": expire, "limit": limit, "outcome": outcome}
+                        if expire and n == 3 and not cancels:
+                            yield {"keys": list(keys), "cancels": [], "expire": True, "jump": False, "ticks": 2, "limit": limit, "outcome": "mixed"}
+    # eviction, re-insertion and partial expiry: four arrivals over two keys with limit 1, two partial clock advances
+    for keys in (["A", "B", "A", "A"], ["A", "B", "A", "B"], ["A", "A", "B", "A"]):
+        yield {"keys": keys, "cancels": [], "expire": True, "jump": False, "ticks": 2, "limit": 1, "outcome": "mixed"}
 
 
 def random_config(rng: random.Random) -> dict[str, Any]:
     n = 4
     keys = ["A"] + [rng.choice("AAB") for _ in range(n - 1)]
     cancels = sorted(rng.sample(range(n), rng.randint(0, 2)))
-    return {"keys": keys, "cancels": cancels, "expire": rng.random() < 0.5, "limit": rng.choice([1, 2]), "outcome": rng.choice(["value", "raise", "mixed"])}
+    cfg = {"keys": keys, "cancels": cancels, "expire": rng.random() < 0.6, "limit": rng.choice([1, 2]), "outcome": rng.choice(["value", "raise", "mixed"])}
+    if cfg["expire"]:
+        cfg["ticks"] = rng.choice([0, 1, 2, 2])
+        cfg["jump"] = rng.random() < 0.5
+    return cfg
 
 
 def run(R: Recorder, tier: str, seed: int, shard: int, nshards: int) -> None:
